@@ -6,7 +6,8 @@ import rops
 from check import standard_run, generic_replay
 
 MODULE = "TraceRegex"
-CHARSETS = [["a", "b", " "], ["a", "é", " "], ["x", "ü", "€"], ["a", "b", "ñ"], ["é", "ü", "ö"], ["a", "A", "ß"]]
+CHARSETS = [["a", "b", " "], ["a", "é", " "], ["x", "ü", "€"], ["a", "b", "ñ"], ["é", "ü", "ö"], ["a", "A", "ß"],
+            ["—", "、", "a"], ["€", "、", "—"]]          # 3-byte characters with different lead and equal continuation bytes
 
 
 def feat(LG):
